@@ -277,14 +277,17 @@ Proof. induction 1 as [|a b l r E _ IH]; cbn [mapM]; auto. rewrite E, IH. reflex
 
 (* ------------------------------------------------------------------ the invariant *)
 Section Sound.
-  Variable sem : op -> list ty -> ty -> list value -> result value.
-  (* the structural operations route sub-values (this is all the proof needs to know about sem) *)
-  Hypothesis sem_tuple : forall o dts t vs v,
-    route_of dts o = RTuple -> sem o dts t vs = Ok v -> v = VTup vs.
-  Hypothesis sem_nop : forall o dts t d rest v,
-    route_of dts o = RNop -> sem o dts t (d :: rest) = Ok v -> v = d.
-  Hypothesis sem_get : forall o dts t j d rest v,
-    route_of dts o = RGet j -> sem o dts t (d :: rest) = Ok v -> exists l, d = VTup l /\ znth l j = Ok v.
+  Variable sem : op -> list ty -> ty -> list value -> value -> result value.
+  (* the structural operations route sub-values, and only the is_randdep_op operations look at the
+     evaluating party's own draw (this is all the proof needs to know about sem) *)
+  Hypothesis sem_tuple : forall o dts t vs r v,
+    route_of dts o = RTuple -> sem o dts t vs r = Ok v -> v = VTup vs.
+  Hypothesis sem_nop : forall o dts t d rest r v,
+    route_of dts o = RNop -> sem o dts t (d :: rest) r = Ok v -> v = d.
+  Hypothesis sem_get : forall o dts t j d rest r v,
+    route_of dts o = RGet j -> sem o dts t (d :: rest) r = Ok v -> exists l, d = VTup l /\ znth l j = Ok v.
+  Hypothesis sem_det : forall o dts t vs r r',
+    is_randdep_op o = false -> sem o dts t vs r = sem o dts t vs r'.
 
   Variable c : config.
   Variable tapes : party -> Z -> value.
@@ -339,37 +342,46 @@ Section Sound.
   Proof. apply znth_map. Qed.
 
   (* the value a party computes for a node, before the Sends, agrees with the global value *)
-  Lemma node_sound p before nd ks env genv gvs gv :
+  Lemma node_sound p i before nd ks env genv gvs gv :
     is_party p ->
     Forall3 (agree p) ks env genv ->
     mapM (fun d => znth genv d) (n_deps nd) = Ok gvs ->
-    sem (n_op nd) (dep_types before (n_deps nd)) (n_ty nd) gvs = Ok gv ->
+    sem (n_op nd) (dep_types before (n_deps nd)) (n_ty nd) gvs (rho i) = Ok gv ->
     agree p
       (match route_of (dep_types before (n_deps nd)) (n_op nd), n_deps nd with
        | RTuple, ds => KTup (map (dep_k ks) ds)
        | RNop, d :: _ => dep_k ks d
        | RGet j, d :: _ => kget (dep_k ks d) j
-       | _, ds => KLeaf (fold_right (fun d acc => pinter (kmeet (dep_k ks d)) acc) pall ds)
+       | _, ds => KLeaf (let v := fold_right (fun d acc => pinter (kmeet (dep_k ks d)) acc) pall ds in
+                        if is_randdep_op (n_op nd) then pinter (psingle (cert_of c i)) v else v)
        end)
-      (lnode sem before nd (map (lookup env) (n_deps nd))) gv.
+      (lnode sem before nd (map (lookup env) (n_deps nd)) (tapes p i)) gv.
   Proof.
     intros Hp F M S. pose proof (deps_agree p ks env genv _ _ F M) as D.
     unfold lnode.
     set (dts := dep_types before (n_deps nd)) in *.
-    assert (Generic : agree p (KLeaf (fold_right (fun d acc => pinter (kmeet (dep_k ks d)) acc) pall (n_deps nd)))
+    assert (Generic : agree p (KLeaf (let v := fold_right (fun d acc => pinter (kmeet (dep_k ks d)) acc) pall (n_deps nd) in
+                                      if is_randdep_op (n_op nd) then pinter (psingle (cert_of c i)) v else v))
               (match mapM (fun d => match extract d with Some v => Ok v | None => Err end) (map (lookup env) (n_deps nd)) with
-               | Ok vs => match sem (n_op nd) dts (n_ty nd) vs with
+               | Ok vs => match sem (n_op nd) dts (n_ty nd) vs (tapes p i) with
                           | Ok v => embed v | _ => PPoison end
                | _ => PPoison end) gv).
-    { constructor. intros Hm. apply fold_pinter_mem in Hm.
-      rewrite (known_deps_extract p _ _ _ D Hm), S. reflexivity. }
+    { constructor. cbv zeta. intros Hm.
+      assert (Hm' : pmem p (fold_right (fun d acc => pinter (kmeet (dep_k ks d)) acc) pall (n_deps nd)) = true
+                    /\ sem (n_op nd) dts (n_ty nd) gvs (tapes p i) = Ok gv).
+      { destruct (is_randdep_op (n_op nd)) eqn:ERD.
+        - rewrite pmem_pinter in Hm. apply andb_true_iff in Hm as [H1 H2]. split; auto.
+          apply pmem_psingle in H1; auto. unfold rho in S. rewrite <- H1 in S. exact S.
+        - split; auto. rewrite (sem_det _ _ _ _ (tapes p i) (rho i) ERD). exact S. }
+      destruct Hm' as [Hm1 Hm2]. apply fold_pinter_mem in Hm1.
+      rewrite (known_deps_extract p _ _ _ D Hm1), Hm2. reflexivity. }
     destruct (route_of dts (n_op nd)) as [ | j | | ] eqn:R.
     - (* RTuple *)
-      rewrite (sem_tuple _ _ _ _ _ R S). apply ag_tup. exact D.
+      rewrite (sem_tuple _ _ _ _ _ _ R S). apply ag_tup. exact D.
     - (* RGet j *)
       destruct (n_deps nd) as [|d ds] eqn:Eds; [exact Generic|].
       cbn [map] in *. inversion D as [|k lv g kl ll gl A Dr]; subst.
-      destruct (sem_get _ _ _ _ _ _ _ R S) as (gl0 & -> & Ej).
+      destruct (sem_get _ _ _ _ _ _ _ _ R S) as (gl0 & -> & Ej).
       remember (dep_k ks d) as kd. remember (lookup env d) as lvd.
       clear Heqkd Heqlvd Generic D M.
       inversion A as [V lv0 gv0 h | ks0 lv0 gv0 h | ks0 ls gs h]; subst; cbn [kget].
@@ -388,7 +400,185 @@ Section Sound.
     - (* RNop *)
       destruct (n_deps nd) as [|d ds] eqn:Eds; [exact Generic|].
       cbn [map] in *. inversion D as [|k lv g kl ll gl A Dr]; subst.
-      rewrite (sem_nop _ _ _ _ _ _ R S). exact A.
+      rewrite (sem_nop _ _ _ _ _ _ _ R S). exact A.
     - exact Generic.
+  Qed.
+
+  Lemma tget_app3 (envs : triple (list pval)) (vals : triple pval) p :
+    is_party p ->
+    tget (let '(e0, e1, e2) := envs in (e0 ++ [tget vals 0], e1 ++ [tget vals 1], e2 ++ [tget vals 2])) p
+    = tget envs p ++ [tget vals p].
+  Proof. destruct envs as [[e0 e1] e2]. intros [-> | [-> | ->]]; reflexivity. Qed.
+
+  (* one node: the three folds stay in step and the invariant is preserved *)
+  Lemma step_sound before ks genv envs sts gins lins nd ks1 sts1 b1 genv2 gins2 b2 envs3 lins3 b3 :
+    Inv before ks genv envs sts gins lins ->
+    length ks = length before ->
+    know_step c (Ok (before, ks, sts)) nd = Ok (b1, ks1, sts1) ->
+    gstep sem rho (Some (before, genv, gins)) nd = Some (b2, genv2, gins2) ->
+    lstep sem tapes (Some (before, envs, lins)) nd = Some (b3, envs3, lins3) ->
+    b1 = before ++ [nd] /\ b2 = before ++ [nd] /\ b3 = before ++ [nd] /\
+    length ks1 = length b1 /\
+    Inv b1 ks1 genv2 envs3 sts1 gins2 lins3.
+  Proof.
+    intros [IA II] Lk K G L. destruct envs as [[e0 e1] e2].
+    unfold know_step in K. cbn [bind] in K.
+    unfold gstep in G. unfold lstep in L.
+    set (i := Z.of_nat (length before)) in *.
+    (* common shape: pre-send knowledge k0 / values vals / global value gv *)
+    assert (Core : forall k0 vals gv sts' gins' lins',
+              (forall p, is_party p -> agree p k0 (tget vals p) gv) ->
+              inputs_agree sts' gins' lins' ->
+              forall ks' envs',
+              ks' = ks ++ [fold_left (fun k sr => ksend (fst sr) (snd sr) k) (sends_of nd) k0] ->
+              envs' = (let vals' := fold_left (fun v sr => tset v (snd sr) (tget v (fst sr))) (sends_of nd) vals in
+                       let '(e0, e1, e2) := (e0, e1, e2) in (e0 ++ [tget vals' 0], e1 ++ [tget vals' 1], e2 ++ [tget vals' 2])) ->
+              length ks' = length (before ++ [nd]) /\
+              Inv (before ++ [nd]) ks' (genv ++ [gv]) envs' sts' gins' lins').
+    { intros k0 vals gv sts' gins' lins' Pre Ins ks' envs' -> ->. split.
+      - rewrite !app_length. cbn. lia.
+      - constructor; auto. intros p Hp. cbv zeta.
+        set (vals' := fold_left (fun v sr => tset v (snd sr) (tget v (fst sr))) (sends_of nd) vals).
+        replace (tget (e0 ++ [tget vals' 0], e1 ++ [tget vals' 1], e2 ++ [tget vals' 2]) p)
+          with (tget (e0, e1, e2) p ++ [tget vals' p]) by (destruct Hp as [-> | [-> | ->]]; reflexivity).
+        apply Forall3_app; auto. apply sends_sound; auto. }
+    destruct (is_input (n_op nd)) eqn:EI.
+    - (* input *)
+      destruct sts as [|st sts']; cbn [bind] in K; [discriminate|].
+      destruct gins as [|gv gins']; [discriminate|].
+      destruct lins as [|l3 lins']; [discriminate|].
+      cbn [bind] in K. injection K as <- <- <-. injection G as <- <- <-. injection L as <- <- <-.
+      inversion II as [|st0 gv0 l30 a b c0 H0 Hr]; subst.
+      destruct (Core (input_know st) l3 gv sts' gins' lins' H0 Hr _ _ eq_refl eq_refl) as [C1 C2].
+      do 3 (split; [reflexivity|]). split; [exact C1 | exact C2].
+    - destruct (is_uninlined (n_op nd)) eqn:EU; [cbn [bind] in K; discriminate|].
+      destruct (is_random_op (n_op nd)) eqn:ER.
+      + (* random-like: every party draws its own value *)
+        cbn [bind] in K. injection K as <- <- <-. injection G as <- <- <-. injection L as <- <- <-.
+        destruct (Core (KLeaf (psingle (cert_of c i)))
+                       (embed (tapes 0 i), embed (tapes 1 i), embed (tapes 2 i)) (rho i) sts gins lins) with
+          (ks' := ks ++ [fold_left (fun k sr => ksend (fst sr) (snd sr) k) (sends_of nd) (KLeaf (psingle (cert_of c i)))])
+          (envs' := (let vals' := fold_left (fun v sr => tset v (snd sr) (tget v (fst sr))) (sends_of nd)
+                                    (embed (tapes 0 i), embed (tapes 1 i), embed (tapes 2 i)) in
+                     let '(e0, e1, e2) := (e0, e1, e2) in (e0 ++ [tget vals' 0], e1 ++ [tget vals' 1], e2 ++ [tget vals' 2])))
+          as [C1 C2]; auto.
+        { intros p Hp. constructor. intros Hm. apply pmem_psingle in Hm; auto. unfold rho. rewrite <- Hm.
+          destruct Hp as [-> | [-> | ->]]; reflexivity. }
+      + (* computed node *)
+        cbn [bind] in K. injection K as <- <- <-.
+        destruct (mapM (fun d => znth genv d) (n_deps nd)) as [gvs| | |] eqn:EM; try discriminate.
+        destruct (sem (n_op nd) (dep_types before (n_deps nd)) (n_ty nd) gvs (rho i)) as [gv| | |] eqn:ES; try discriminate.
+        injection G as <- <- <-. injection L as <- <- <-.
+        match goal with
+        | |- context [ks ++ [fold_left _ (sends_of nd) ?K0]] => set (k0 := K0)
+        end.
+        destruct (Core k0
+                       (lnode sem before nd (map (fun d => match znth (tget (e0, e1, e2) 0) d with Ok x => x | _ => PPoison end) (n_deps nd)) (tapes 0 i),
+                        lnode sem before nd (map (fun d => match znth (tget (e0, e1, e2) 1) d with Ok x => x | _ => PPoison end) (n_deps nd)) (tapes 1 i),
+                        lnode sem before nd (map (fun d => match znth (tget (e0, e1, e2) 2) d with Ok x => x | _ => PPoison end) (n_deps nd)) (tapes 2 i))
+                       gv sts gins lins) with
+          (ks' := ks ++ [fold_left (fun k sr => ksend (fst sr) (snd sr) k) (sends_of nd) k0])
+          (envs' := (let vals' := fold_left (fun v sr => tset v (snd sr) (tget v (fst sr))) (sends_of nd)
+                       (lnode sem before nd (map (fun d => match znth (tget (e0, e1, e2) 0) d with Ok x => x | _ => PPoison end) (n_deps nd)) (tapes 0 i),
+                        lnode sem before nd (map (fun d => match znth (tget (e0, e1, e2) 1) d with Ok x => x | _ => PPoison end) (n_deps nd)) (tapes 1 i),
+                        lnode sem before nd (map (fun d => match znth (tget (e0, e1, e2) 2) d with Ok x => x | _ => PPoison end) (n_deps nd)) (tapes 2 i)) in
+                     let '(e0, e1, e2) := (e0, e1, e2) in (e0 ++ [tget vals' 0], e1 ++ [tget vals' 1], e2 ++ [tget vals' 2])))
+          as [C1 C2]; auto.
+        { intros p Hp.
+          pose proof (node_sound p i before nd ks (tget (e0, e1, e2) p) genv gvs gv Hp (IA p Hp) EM ES) as NS.
+          unfold lookup, dep_k in NS. subst k0.
+          destruct Hp as [-> | [-> | ->]]; exact NS. }
+  Qed.
+
+  (* the whole graph *)
+  Lemma run_sound nodes : forall before ks genv envs sts gins lins accK accG accL,
+    Inv before ks genv envs sts gins lins ->
+    length ks = length before ->
+    fold_left (know_step c) nodes (Ok (before, ks, sts)) = Ok accK ->
+    fold_left (gstep sem rho) nodes (Some (before, genv, gins)) = Some accG ->
+    fold_left (lstep sem tapes) nodes (Some (before, envs, lins)) = Some accL ->
+    let '(_, ks', _) := accK in let '(_, genv', _) := accG in let '(_, envs', _) := accL in
+    forall p, is_party p -> Forall3 (agree p) ks' (tget envs' p) genv'.
+  Proof.
+    induction nodes as [|nd nodes IH]; intros before ks genv envs sts gins lins accK accG accL I Lk K G L.
+    - cbn [fold_left] in *. injection K as <-. injection G as <-. injection L as <-. apply I.
+    - cbn [fold_left] in K, G, L.
+      destruct (know_step c (Ok (before, ks, sts)) nd) as [[[b1 ks1] sts1]| | |] eqn:EK.
+      2-4: (exfalso; clear -K; induction nodes as [|x l IHl]; cbn [fold_left] in K; [discriminate|];
+            unfold know_step at 2 in K; cbn [bind] in K; auto).
+      destruct (gstep sem rho (Some (before, genv, gins)) nd) as [[[b2 genv2] gins2]|] eqn:EG.
+      2: (exfalso; clear -G; induction nodes as [|x l IHl]; cbn [fold_left] in G; [discriminate|]; auto).
+      destruct (lstep sem tapes (Some (before, envs, lins)) nd) as [[[b3 envs3] lins3]|] eqn:EL.
+      2: (exfalso; clear -L; induction nodes as [|x l IHl]; cbn [fold_left] in L; [discriminate|]; auto).
+      destruct (step_sound _ _ _ _ _ _ _ _ _ _ _ _ _ _ _ _ _ I Lk EK EG EL) as (-> & -> & -> & L1 & I1).
+      eapply IH; eauto.
+  Qed.
+
+  (* ---------------------------------------------------------------- main theorem *)
+  Theorem kcheck_sound nodes output gin lin genv envs :
+    kcheck c nodes output = true ->
+    inputs_agree (cfg_inputs c) gin lin ->
+    grun sem rho gin nodes = Some genv ->
+    lrun sem tapes lin nodes = Some envs ->
+    (* revealed output: every listed party holds the global output value *)
+    (cfg_outputs c <> [] ->
+     forall p gv, In p (cfg_outputs c) -> is_party p -> znth genv output = Ok gv ->
+                  znth (tget envs p) output = Ok (embed gv)) /\
+    (* output kept shared: slot j is held, identically to the global run, by parties j and j-1 *)
+    (cfg_outputs c = [] ->
+     forall j p gs lv, (j = 0 \/ j = 1 \/ j = 2) -> (p = j \/ p = (j + 2) mod 3) ->
+                  znth genv output = Ok (VTup gs) -> znth (tget envs p) output = Ok lv ->
+                  forall g, znth gs j = Ok g ->
+                  match lv with
+                  | PTup ls => znth ls j = Ok (embed g)
+                  | _ => False
+                  end).
+  Proof.
+    unfold kcheck, know_all, grun, lrun. intros KC IN GR LR.
+    destruct (fold_left (know_step c) nodes (Ok ([], [], cfg_inputs c))) as [[[bk ks] stsk]| | |] eqn:EK;
+      cbn [bind] in KC; try discriminate.
+    destruct (fold_left (gstep sem rho) nodes (Some ([], [], gin))) as [[[bg genv'] ginr]|] eqn:EG; [|discriminate].
+    injection GR as <-.
+    destruct (fold_left (lstep sem tapes) nodes (Some ([], ([], [], []), lin))) as [[[bl envs'] linr]|] eqn:EL; [|discriminate].
+    injection LR as <-.
+    assert (I0 : Inv [] [] [] ([], [], []) (cfg_inputs c) gin lin).
+    { constructor; auto. intros p [-> | [-> | ->]]; constructor. }
+    pose proof (run_sound nodes [] [] [] ([], [], []) (cfg_inputs c) gin lin _ _ _ I0 eq_refl EK EG EL) as A.
+    cbv beta iota in A.
+    destruct (znth ks output) as [k| | |] eqn:Ek; try discriminate.
+    split.
+    - intros Hne p gv Hin Hp Eg.
+      destruct (cfg_outputs c) as [|q qs] eqn:Eo; [congruence|].
+      unfold subset_mem in KC. rewrite forallb_forall in KC. specialize (KC p Hin).
+      pose proof (Forall3_length _ _ _ _ (A p Hp)) as [L1 L2].
+      pose proof (znth_ok_range _ _ _ Eg) as R.
+      destruct (znth_range_ok (tget envs' p) output) as (lv & El); [lia|].
+      rewrite El. f_equal.
+      apply (agree_all p k lv gv); auto.
+      exact (Forall3_znth _ ks (tget envs' p) genv' output k lv gv (A p Hp) Ek El Eg).
+    - intros He j p gs lv Hj Hpj Eg El g Egj.
+      rewrite He in KC. rewrite forallb_forall in KC.
+      assert (Hjin : In j [0; 1; 2]) by (cbn; lia).
+      specialize (KC j Hjin). apply andb_true_iff in KC as [K1 K2].
+      assert (Hp : is_party p).
+      { unfold is_party. destruct Hj as [-> | [-> | ->]]; destruct Hpj as [-> | ->]; cbn; lia. }
+      assert (Km : pmem p (kmeet (kget k j)) = true) by (destruct Hpj as [-> | ->]; auto).
+      pose proof (Forall3_znth _ ks (tget envs' p) genv' output k lv (VTup gs) (A p Hp) Ek El Eg) as Ag.
+      inversion Ag as [V lv0 gv0 h | ks0 lv0 gv0 h | ks0 ls gs0 h]; subst.
+      + cbn [kget kmeet] in Km. rewrite (h Km). cbn [embed]. apply znth_map. exact Egj.
+      + exfalso. apply kmeet_in_join in Km. cbn [kget] in Km.
+        destruct (znth ks0 j) as [k'| | |] eqn:Ek0; try (cbn in Km; rewrite pmem_pnone in Km; discriminate).
+        cbn [kjoin_mem] in h. clear -h Ek0 Km.
+        unfold znth in Ek0. destruct (j <? 0); try discriminate. revert Ek0. generalize (Z.to_nat j).
+        induction ks0 as [|k0 ks0 IH]; intros [|n]; cbn; try discriminate.
+        * intros E. injection E as <-. cbn [existsb] in h. apply orb_false_iff in h. destruct h. congruence.
+        * cbn [existsb] in h. apply orb_false_iff in h as [_ h]. apply IH; auto.
+      + pose proof (Forall3_length _ _ _ _ h) as [L1 L2].
+        pose proof (znth_ok_range _ _ _ Egj) as Rg.
+        destruct (znth_range_ok ks0 j) as (k' & Ek'); [lia|].
+        destruct (znth_range_ok ls j) as (l' & El'); [lia|].
+        cbn [kget] in Km. rewrite Ek' in Km. rewrite El'. f_equal.
+        apply (agree_all p k' l' g); auto.
+        exact (Forall3_znth _ ks0 ls gs j k' l' g h Ek' El' Egj).
   Qed.
 End Sound.
